@@ -263,6 +263,13 @@ start_pass_fdctmgr(j_compress_ptr cinfo)
         cinfo->quant_tbl_ptrs[qtblno] == NULL)
       ERREXIT1(cinfo, JERR_NO_QUANT_TABLE, qtblno);
     qtbl = cinfo->quant_tbl_ptrs[qtblno];
+    /* A quantization step of zero (possible only if the application filled in
+     * the table itself) cannot be divided by.
+     */
+    for (i = 0; i < DCTSIZE2; i++) {
+      if (qtbl->quantval[i] == 0)
+        ERREXIT1(cinfo, JERR_NO_QUANT_TABLE, qtblno);
+    }
     /* Compute divisors for this quant table */
     /* We may do this more than once for same table, but it's not a big deal */
     switch (cinfo->dct_method) {
